@@ -15,6 +15,13 @@ Driver handlers for C18 (`DistanceMatrix`).
       `Index<(u, v)>` in row-major order
         =>  inf [entry…] [ecc…] diam [center…] [periphery…] true|false
 
+  dm_si order inf default [[u w]…] [[u v w]…]   (W = isize)      dm_su … (W = usize)
+      sparse description for LARGE orders (round 2): after `new`, every cell is written with
+      `default` (skipped when `default = inf`), then every cell of row `u` with `w` for each
+      row fill `[u w]`, then the cell exceptions `[u v w]`, all through `IndexMut<(u, v)>`
+        =>  [ecc…] diam [center…] [periphery…] true|false
+  dm_fw2 / dm_fw3 [wi n warcs]   as `dm_fw`, but `distances()` is called 2 / 3 times on the SAME object
+
 The PROPFAIL oracle evaluates the textbook definitions on the entries that were SENT
 (association lookup over the write list, `List.max?` / `List.min?`, `filter` over the vertex
 range); it shares nothing with the model's `chunks` / running-minimum loop.
@@ -39,8 +46,26 @@ def Tab.ofWrites (n : Nat) (inf : Int) (ws : List (Nat × Nat × Int)) : Tab :=
       | none => inf)) }
 
 def Tab.ofRaw (n : Nat) (inf : Int) (raw : List Int) : Tab :=
+  let arr := raw.toArray
   { n := n, inf := inf,
-    rows := (List.range n).map (fun u => (List.range n).map (fun v => (raw[u * n + v]?).getD inf)) }
+    rows := (List.range n).map (fun u => (List.range n).map (fun v => (arr[u * n + v]?).getD inf)) }
+
+/-- Table of a sparse description: default, then whole-row fills, then cell exceptions
+(later entries win). -/
+def Tab.ofSparse (n : Nat) (inf dflt : Int) (fills : List (Nat × Int)) (cells : List (Nat × Nat × Int)) : Tab :=
+  let rfills := fills.reverse
+  let rcells := cells.reverse
+  { n := n, inf := inf,
+    rows := (List.range n).map (fun u =>
+      let base := match rfills.find? (fun f => f.1 == u) with
+        | some f => f.2
+        | none => dflt
+      let mine := rcells.filter (fun c => c.1 == u)
+      if mine.isEmpty then List.replicate n base
+      else (List.range n).map (fun v =>
+        match mine.find? (fun c => c.2.1 == v) with
+        | some c => c.2.2
+        | none => base)) }
 
 def Tab.entry (t : Tab) (u v : Nat) : Int := ((t.rows[u]?).getD [])[v]?.getD t.inf
 def Tab.ecc (t : Tab) : List Int := t.rows.map (fun r => (r.max?).getD t.inf)
@@ -100,12 +125,12 @@ def distinctCount (l : List Int) : Nat := l.eraseDups.length
 def shapeTags (t : Tab) : List String :=
   let e := t.ecc
   let allInf := e.all (· == t.inf)
-  let asym := (List.range t.n).any (fun u => (List.range t.n).any (fun v => t.entry u v != t.entry v u))
-  [ sizeTag t.n,
+  let asym := t.n ≤ 64 && (List.range t.n).any (fun u => (List.range t.n).any (fun v => t.entry u v != t.entry v u))
+  [ if t.n ≥ 500 then "n>=500" else if t.n ≥ 255 then "n255-499" else sizeTag t.n,
     if allInf then "all-inf" else if t.connected then "connected" else "some-inf",
     if t.center.length > 1 then "tie-min" else "single-min",
     if t.periphery.length > 1 then "tie-max" else "single-max",
-    if asym then "asym" else "sym" ]
+    if t.n > 64 then "large" else if asym then "asym" else "sym" ]
 
 def hBuild (ty : String) : Handler := fun _ args obs =>
   match args with
@@ -169,7 +194,39 @@ def hFw : Handler := fun _ args obs =>
     some (classify obs [] (some "FloydWarshall / DistanceMatrix call did not return a matrix") (nt := true) ["fw", "no-matrix"])
   | _, _ => none
 
+/-- Where the row maxima sit (round-2 seeds: a half-split that forgets the last column of an odd
+row, block-wise scans): tags for the evidence. -/
+def maxPosTags (t : Tab) : List String :=
+  let lastOnly := t.rows.any (fun r =>
+    match r.max? with
+    | some mx => r.getLast? == some mx && !(r.dropLast.contains mx)
+    | none => false)
+  [ if lastOnly then "max-only-in-last-col" else "max-elsewhere",
+    if t.n % 2 == 1 then "odd" else "even" ]
+
+def hSparse (ty : String) : Handler := fun _ args obs =>
+  match args with
+  | [order, inf, dflt, fills, cells] => do
+    let n ← V.nat? order
+    let inf ← V.int? inf
+    let dflt ← V.int? dflt
+    let fills ← V.listOf? (V.pair? V.nat? V.int?) fills
+    let cells ← V.listOf? (V.triple? V.nat? V.nat? V.int?) cells
+    -- generated only inside the property's scope; anything else is a protocol error
+    if n == 0 || n > 4096 || fills.any (fun f => f.1 ≥ n) || cells.any (fun c => c.1 ≥ n || c.2.1 ≥ n) then none
+    else
+      let t := Tab.ofSparse n inf dflt fills cells
+      let m : DM := ⟨t.raw, inf, n⟩
+      let model := modelMetrics m
+      let pf : Option String :=
+        if !t.bounded then none
+        else firstDiff ["eccentricities", "diameter", "center", "periphery", "is_connected"] obs t.metrics
+      let tags := [ty, "sparse", if t.bounded then "bounded" else "above-inf"] ++ shapeTags t ++ maxPosTags t
+      pure (classify obs model pf (nt := true) tags)
+  | _ => none
+
 def handlers : List (String × Handler) :=
-  [("dm_i", hBuild "isize"), ("dm_u", hBuild "usize"), ("dm_fw", hFw)]
+  [("dm_i", hBuild "isize"), ("dm_u", hBuild "usize"), ("dm_fw", hFw), ("dm_fw2", hFw), ("dm_fw3", hFw),
+   ("dm_si", hSparse "isize"), ("dm_su", hSparse "usize")]
 
 end GraafVerif.Driver.H18
